@@ -15,9 +15,12 @@ Replaced by the harness (everything else is the code under test):
     `psutil` (launcher.psutil is replaced by a shim whose Process(pid) consults the harness' process table: alive | early = gone
     before stop looks it up (NoSuchProcess from psutil.Process) | late = dies while being terminated (NoSuchProcess from terminate)
     | stubborn = ignores SIGTERM (TimeoutExpired from wait, then kill)). Observed per node: look-ups by stop() (= the node was
-    handled by stop), terminate() calls, system metrics stored by the node's telemetry, results stored by Mechanic._add_results.
+    handled by stop), terminate() calls, system metrics stored by the node's telemetry (each produces a real
+    `final_index_size_bytes` record, as the real IndexSize device does at shutdown), results stored by Mechanic._add_results and
+    whether they contain that shutdown metric. The metrics store is the real InMemoryMetricsStore made buffering like the
+    Elasticsearch store (records are searchable only after flush(refresh=True)).
     The provisioner creates a real install directory so that the real `provisioner.cleanup` is observed on disk;
-  * `mechanic.load_team` (no team repository offline), `metrics.race_store / results_store / calculate_system_results` (recording),
+  * `mechanic.load_team` (no team repository offline), `metrics.race_store / results_store` (recording; `calculate_system_results` is the real one),
     `metrics.metrics_store_class` (real InMemoryMetricsStore, flush recorded);
   * race control and the actor system's convention notifier are endpoints driven by the harness.
   * `sysstats.cpu_model` (0.2 s per call in telemetry.add_metadata_for_node) returns a constant.
@@ -119,7 +122,9 @@ class MechWorld:
 
         class RecDevice(telemetry.InternalTelemetryDevice):
             def store_system_metrics(self_, node, metrics_store):
+                # like the real IndexSize device: a metric that only exists once the node is shut down
                 n = int(node.node_name.rsplit("-", 1)[1])
+                metrics_store.put_value_node_level(node.node_name, "final_index_size_bytes", 4096 + n, "byte")
                 world.nd[n]["sysm"] += 1
                 world.calls.append(("sysmetrics", n))
 
@@ -180,9 +185,17 @@ class MechWorld:
                 return provisioner.NodeConfiguration("tar", "17", True, self_.ip, name, d, install, [data])
 
         class RecStore(metrics.InMemoryMetricsStore):
+            """The real in-memory store made BUFFERING like the Elasticsearch store: a record is handed over by flush() and can
+            be found by queries (get_one, ... = what calculate_system_results uses) only after a flush with refresh=True."""
+
             def __init__(self_, cfg):
                 super().__init__(cfg)
                 self_.verif_key = None
+                self_.verif_buffer = []  # added, not flushed
+                self_.verif_indexed = []  # flushed without refresh: not yet searchable
+
+            def _add(self_, doc):
+                self_.verif_buffer.append(doc)
 
             def close(self_):
                 self_.verif_closing = True
@@ -196,6 +209,11 @@ class MechWorld:
                 if refresh and self_.verif_key is not None and not getattr(self_, "verif_closing", False):
                     world.flushes[self_.verif_key] = world.flushes.get(self_.verif_key, 0) + 1
                     world.calls.append(("flush", self_.verif_key))
+                self_.verif_indexed.extend(self_.verif_buffer)
+                self_.verif_buffer = []
+                if refresh:
+                    self_.docs.extend(self_.verif_indexed)
+                    self_.verif_indexed = []
                 return super().flush(refresh=refresh)
 
         class RecRaceStore:
@@ -204,9 +222,11 @@ class MechWorld:
 
         class RecResultsStore:
             def store_results(self_, race):
-                name = race.results[-1]
-                n = int(name.rsplit("-", 1)[1])
+                res = race.results[-1]  # the SystemStats the real metrics.calculate_system_results computed for one node
+                n = int(res.verif_node.rsplit("-", 1)[1])
                 world.nd[n]["stored"] += 1
+                # is the metric produced while the node was shut down part of the node's stored system results?
+                world.nd[n]["shut"] += sum(1 for m in res.node_metrics if m["node"] == res.verif_node and m["name"] == "index_size")
                 world.calls.append(("store", n))
 
         def fake_create(cfg, metrics_store, node_ip, node_http_port, all_node_ips, all_node_ids, sources=False, distribution=False, external=False, docker=False):
@@ -227,7 +247,14 @@ class MechWorld:
         self._patch(metrics, "metrics_store_class", lambda cfg: RecStore)
         self._patch(metrics, "race_store", lambda cfg: RecRaceStore())
         self._patch(metrics, "results_store", lambda cfg: RecResultsStore())
-        self._patch(metrics, "calculate_system_results", lambda store, node_name: node_name)
+        orig_calc = metrics.calculate_system_results
+
+        def tagged_calc(store, node_name):
+            res = orig_calc(store, node_name)  # the real SystemStatsCalculator on the buffering store
+            res.verif_node = node_name
+            return res
+
+        self._patch(metrics, "calculate_system_results", tagged_calc)
 
         def namer(cls, requirements):
             return {"MechanicActor": "M", "Dispatcher": "D", "NodeMechanicActor": "N"}.get(cls.__name__, cls.__name__)
@@ -246,7 +273,7 @@ class MechWorld:
         self.ents, self.ids = entries_of(scn)
         self.n_nodes = len(scn["targets"])
         # observations (the property's observation point), per lifecycle
-        self.nd = [{"starts": 0, "stops": 0, "term": 0, "kills": 0, "sysm": 0, "stored": 0, "dir": None, "proc": "alive"} for _ in range(self.n_nodes)]
+        self.nd = [{"starts": 0, "stops": 0, "term": 0, "kills": 0, "sysm": 0, "stored": 0, "shut": 0, "dir": None, "proc": "alive"} for _ in range(self.n_nodes)]
         self.procs = 0  # number of node processes the environment has put into a condition other than alive
         self.flushes = {}  # (ipstr, port) -> number of flush(refresh=True)
         self.left = set()
@@ -611,7 +638,7 @@ class MechWorld:
                 inst_dir = "absent"
             else:
                 inst_dir = "present" if os.path.isdir(x["dir"]) else "removed"
-            nd.append({"starts": x["starts"], "stops": x["stops"], "term": x["term"], "sysm": x["sysm"], "stored": x["stored"], "inst": inst_dir, "proc": x["proc"]})
+            nd.append({"starts": x["starts"], "stops": x["stops"], "term": x["term"], "sysm": x["sysm"], "stored": x["stored"], "shut": x["shut"], "inst": inst_dir, "proc": x["proc"]})
         st = self._state(d2n, n2m, m2n, n2d, mech, disp, na, nd, ho)
         # messages travelling between pairs of actors the model has no channel for (must be none)
         st["other"] = sum(len(q) for key, q in sim.chan.items() if key not in self._projected)
